@@ -434,3 +434,168 @@ Proof.
     + apply (remove_splice (x :: r) id mn mx Hne Hsp Hfp).
     + apply (find_split (x :: r) id mn mx Hne Hsp Hfp).
 Qed.
+
+(* ------------------------------------------------------------------ *)
+(* E. the reference operations as splices; sortedness                  *)
+
+Lemma Forall_nthz (P : opt -> Prop) l : (forall k, 0 <= k < len l -> P (nthz l k)) -> Forall P l.
+Proof.
+  induction l as [|x l IH]; intros H; constructor.
+  - apply (H 0). rewrite len_cons. pose proof (len_nonneg l). lia.
+  - apply IH. intros k Hk. rewrite <- (nthz_S x) by lia. apply H. rewrite len_cons. lia.
+Qed.
+Lemma nthz_Forall (P : opt -> Prop) l k : Forall P l -> 0 <= k < len l -> P (nthz l k).
+Proof.
+  intros H. revert k. induction H as [|x l Hx Hl IH]; intros k Hk.
+  - unfold len in Hk; cbn [length Z.of_nat] in Hk. lia.
+  - rewrite len_cons in Hk. destruct (Z.eq_dec k 0) as [->|]; [assumption|].
+    rewrite nthz_cons by lia. apply IH. lia.
+Qed.
+
+Lemma filter_all {A} (p : A -> bool) l : Forall (fun x => p x = true) l -> filter p l = l.
+Proof. induction 1 as [|x l Hx _ IH]; cbn [filter]; [reflexivity|]. rewrite Hx, IH. reflexivity. Qed.
+Lemma filter_none {A} (p : A -> bool) l : Forall (fun x => p x = false) l -> filter p l = [].
+Proof. induction 1 as [|x l Hx _ IH]; cbn [filter]; [reflexivity|]. rewrite Hx, IH. reflexivity. Qed.
+
+Lemma ref_add_app o X Y : Forall (fun x => oid x <= oid o) X ->
+  (forall y r, Y = y :: r -> oid o < oid y) ->
+  ref_add o (X ++ Y) = X ++ o :: Y.
+Proof.
+  intros HX HY. induction HX as [|x X Hx _ IH]; cbn [app ref_add].
+  - destruct Y as [|y r]; [reflexivity|]. cbn [ref_add]. specialize (HY y r eq_refl).
+    destruct (Z.leb_spec (oid y) (oid o)); [lia|reflexivity].
+  - destruct (Z.leb_spec (oid x) (oid o)); [|lia]. rewrite IH. reflexivity.
+Qed.
+
+Lemma drop_drop {A} (l : list A) a b : 0 <= a -> 0 <= b -> drop (drop l a) b = drop l (a + b).
+Proof.
+  intros Ha Hb. unfold drop. replace (Z.to_nat (a + b)) with (Z.to_nat a + Z.to_nat b)%nat by lia.
+  generalize (Z.to_nat a) as n. generalize (Z.to_nat b) as m. intros m n. revert l.
+  induction n as [|n IH]; intros l; [reflexivity|]. destruct l as [|x l]; [destruct m; reflexivity|].
+  cbn [skipn Nat.add]. apply IH.
+Qed.
+
+Lemma split3_lo l id a c : split3 l id a c -> Forall (fun x => oid x < id) (take l a).
+Proof.
+  intros (H1 & H2 & H3 & H4 & _). apply Forall_nthz. intros k Hk. rewrite len_take in Hk by lia.
+  rewrite nthz_take by lia. apply H4; lia.
+Qed.
+Lemma split3_le l id a c : split3 l id a c -> Forall (fun x => oid x <= id) (take l c).
+Proof.
+  intros (H1 & H2 & H3 & H4 & H5 & _). apply Forall_nthz. intros k Hk. rewrite len_take in Hk by lia.
+  rewrite nthz_take by lia. destruct (Z.ltb_spec k a); [specialize (H4 k); lia|specialize (H5 k); lia].
+Qed.
+Lemma split3_mid l id a c : split3 l id a c -> Forall (fun x => oid x = id) (take (drop l a) (c - a)).
+Proof.
+  intros (H1 & H2 & H3 & H4 & H5 & _). apply Forall_nthz. intros k Hk.
+  rewrite len_take in Hk by (rewrite len_drop; lia).
+  rewrite nthz_take by (rewrite ?len_drop; lia). rewrite nthz_drop by lia. apply H5; lia.
+Qed.
+Lemma split3_hi l id a c : split3 l id a c -> Forall (fun x => id < oid x) (drop l c).
+Proof.
+  intros (H1 & H2 & H3 & _ & _ & H6). apply Forall_nthz. intros k Hk. rewrite len_drop in Hk by lia.
+  rewrite nthz_drop by lia. apply H6; lia.
+Qed.
+Lemma Forall_hd (P : opt -> Prop) Y : Forall P Y -> forall y r, Y = y :: r -> P y.
+Proof. intros H y r ->. inversion H; assumption. Qed.
+
+Lemma ref_add_splice l o a c : split3 l (oid o) a c -> ref_add o l = splice l c c [o].
+Proof.
+  intros H. rewrite <- (take_drop l c) at 1. unfold splice. cbn [app]. apply ref_add_app.
+  - apply (split3_le l _ a c H).
+  - apply (Forall_hd (fun y => oid o < oid y)). apply (split3_hi l _ a c H).
+Qed.
+
+Lemma ref_remove_splice l id a c : split3 l id a c -> ref_remove id l = splice l a c [].
+Proof.
+  intros H. pose proof H as (H1 & H2 & H3 & _).
+  rewrite <- (take_drop l a) at 1. rewrite <- (take_drop (drop l a) (c - a)).
+  rewrite drop_drop by lia. replace (a + (c - a)) with c by lia.
+  unfold ref_remove, splice. rewrite !filter_app. cbn [app].
+  rewrite (filter_all _ (take l a)), (filter_none _ (take (drop l a) (c - a))), (filter_all _ (drop l c)).
+  - reflexivity.
+  - eapply Forall_impl; [|apply (split3_hi l id a c H)]. cbv beta. intros x Hx.
+    destruct (Z.eqb_spec (oid x) id); [lia|reflexivity].
+  - eapply Forall_impl; [|apply (split3_mid l id a c H)]. cbv beta. intros x Hx.
+    destruct (Z.eqb_spec (oid x) id); [reflexivity|lia].
+  - eapply Forall_impl; [|apply (split3_lo l id a c H)]. cbv beta. intros x Hx.
+    destruct (Z.eqb_spec (oid x) id); [lia|reflexivity].
+Qed.
+
+Lemma ref_set_splice l o a c : split3 l (oid o) a c -> ref_set o l = splice l a c [o].
+Proof.
+  intros H. unfold ref_set. rewrite (ref_remove_splice l (oid o) a c H). unfold splice. cbn [app].
+  apply ref_add_app.
+  - eapply Forall_impl; [|apply (split3_lo l _ a c H)]. cbv beta. intros; lia.
+  - apply (Forall_hd (fun y => oid o < oid y)). apply (split3_hi l _ a c H).
+Qed.
+
+(* weaker split (first block <=) used for sortedness of the results *)
+Definition split3le (l : list opt) (id a c : Z) : Prop :=
+  0 <= a /\ a <= c /\ c <= len l /\
+  (forall k, 0 <= k < a -> oid (nthz l k) <= id) /\
+  (forall k, c <= k < len l -> id < oid (nthz l k)).
+Lemma split3_le1 l id a c : split3 l id a c -> split3le l id a c.
+Proof.
+  intros (H1 & H2 & H3 & H4 & H5 & H6). unfold split3le. refine (conj H1 (conj H2 (conj H3 (conj _ H6)))).
+  intros k Hk. specialize (H4 k Hk). lia.
+Qed.
+Lemma split3_le2 l id a c : split3 l id a c -> split3le l id c c.
+Proof.
+  intros (H1 & H2 & H3 & H4 & H5 & H6). unfold split3le.
+  refine (conj _ (conj _ (conj H3 (conj _ H6)))); try lia;
+  try (intros k Hk; destruct (Z.ltb_spec k a); [specialize (H4 k); lia|specialize (H5 k); lia]).
+Qed.
+
+(* every position of a splice whose middle carries the number id *)
+Lemma splice_pos l id a c mid k : split3le l id a c -> Forall (fun x => oid x = id) mid ->
+  0 <= k < len (splice l a c mid) ->
+  (k < a /\ nthz (splice l a c mid) k = nthz l k /\ oid (nthz l k) <= id) \/
+  (a <= k < a + len mid /\ oid (nthz (splice l a c mid) k) = id) \/
+  (a + len mid <= k /\ nthz (splice l a c mid) k = nthz l (k - a - len mid + c) /\
+   c <= k - a - len mid + c < len l /\ id < oid (nthz l (k - a - len mid + c))).
+Proof.
+  intros (H1 & H2 & H3 & H4 & H6) Hm Hk. rewrite len_splice in Hk by lia.
+  rewrite nthz_splice by lia.
+  destruct (Z.ltb_spec k a); [left; repeat split; [lia|apply H4; lia]|].
+  destruct (Z.ltb_spec k (a + len mid)).
+  - right; left. split; [lia|]. apply (nthz_Forall (fun x => oid x = id)); [assumption|lia].
+  - right; right. repeat split; try lia. apply H6; lia.
+Qed.
+
+Lemma sorted_splice l id a c mid : sorted l -> split3le l id a c ->
+  Forall (fun x => oid x = id) mid -> sorted (splice l a c mid).
+Proof.
+  intros Hs H Hm i j Hi Hij Hj. pose proof H as (P1 & P2 & P3 & _). pose proof (len_nonneg mid) as P4.
+  assert (Hi' : 0 <= i < len (splice l a c mid)) by lia.
+  assert (Hj' : 0 <= j < len (splice l a c mid)) by lia.
+  destruct (splice_pos l id a c mid i H Hm Hi') as [(I1 & I2 & I3)|[(I1 & I2)|(I1 & I2 & I3 & I4)]];
+  destruct (splice_pos l id a c mid j H Hm Hj') as [(J1 & J2 & J3)|[(J1 & J2)|(J1 & J2 & J3 & J4)]]; try lia;
+  rewrite ?I2, ?J2; try lia; apply Hs; lia.
+Qed.
+
+Lemma sorted_nil : sorted [].
+Proof. intros i j Hi Hij Hj. unfold len in Hj; cbn [length Z.of_nat] in Hj. lia. Qed.
+
+Lemma split3_exists l id : sorted l -> exists a c, split3 l id a c.
+Proof. intros Hs. destruct (ops_splice l id Hs) as (a & c & H & _). exists a, c. assumption. Qed.
+
+(* the four list operations refine the reference on every sorted list *)
+Theorem set_refines l o : sorted l -> set l o = ref_set o l /\ sorted (set l o).
+Proof.
+  intros Hs. destruct o as [id v]. destruct (ops_splice l id Hs) as (a & c & H & Hset & _).
+  rewrite Hset. split; [symmetry; apply ref_set_splice; assumption|].
+  apply (sorted_splice l id); [assumption|apply split3_le1; assumption|repeat constructor].
+Qed.
+Theorem add_refines l o : sorted l -> add l o = ref_add o l /\ sorted (add l o).
+Proof.
+  intros Hs. destruct o as [id v]. destruct (ops_splice l id Hs) as (a & c & H & _ & Hadd & _).
+  rewrite Hadd. split; [symmetry; apply (ref_add_splice l (id, v) a c); assumption|].
+  apply (sorted_splice l id c c); [assumption|apply (split3_le2 l id a c); assumption|repeat constructor].
+Qed.
+Theorem remove_refines l id : sorted l -> remove l id = ref_remove id l /\ sorted (remove l id).
+Proof.
+  intros Hs. destruct (ops_splice l id Hs) as (a & c & H & _ & _ & Hrm & _).
+  rewrite Hrm. split; [symmetry; apply ref_remove_splice; assumption|].
+  apply (sorted_splice l id); [assumption|apply split3_le1; assumption|constructor].
+Qed.
